@@ -30,7 +30,10 @@ PROFILES = ["release", "chk"]
 TIMEOUT = 20.0
 W = 1 << 64
 
-RULE = ("first, in both tiers, a deterministic boundary family: every operand width 64k-1, 64k, 64k+1 up to 1012 / 500 / 244 bits (N = 16 / 8 / 4) "
+RULE = ("(added) band 64N-11..64N-8 bits, newly inside the proved domain: shapes random / continuant / huge quotient / common factor / "
+        "adversarial (one quotient step onto a 90-bit pair whose top words give the largest known reduce64 row product, one "
+        "Lehmer step, then the <64-bit exit: cofactor products of 40..57 max(n,p)), oracle-judged in both profiles; "
+        "first, in both tiers, a deterministic boundary family: every operand width 64k-1, 64k, 64k+1 up to 1012 / 500 / 244 bits (N = 16 / 8 / 4) "
         "against partners of the same width, one digit shorter, 64 and 33 bits (shapes in rotation), dot_product and ZmodN inv/gcd at the same widths; then "
         "all width pairs from {0,1,2,31..33,63..65,100,127..129,192,256,300,448,500,512,...,1012 bits} x shapes "
         "{random, common factor, multiple, equal, a=0, b=0, Fibonacci-like/continuant (small quotients), huge quotient, "
@@ -61,8 +64,9 @@ CLAIM = ("Lean theorems for all inputs about a word-exact model of arith_gcd.rs:
          "implementation answer is judged by a Python big-integer oracle (math.gcd, Bezout identity, range of the inverse).")
 LEVEL_NOTE = ("Trusted: Lean kernel (+propext, Classical.choice, Quot.sound); correspondence of the hand-written model to "
               "the Rust code is sampled by the differential harness, not proved; bnum operators and num_integer::gcd are "
-              "modelled as mathematical functions; Python integers in the oracle. No theorem is partial; between 64N-11 "
-              "and 64N-7 bits the absence of cofactor overflow is neither proved nor refuted (no panic observed).")
+              "modelled as mathematical functions; Python integers in the oracle. No theorem is partial; for operands of "
+              "exactly 64N-7 bits the absence of cofactor overflow is neither proved nor refuted (no panic found by a "
+              "directed search; largest cofactor product seen: 57 max(n,p), overflow needs 64).")
 TECHNIQUE = "Lean 4 proof about a hand model + differential correspondence check + spec oracle"
 
 WIDTHS16 = [0, 1, 2, 31, 32, 33, 63, 64, 65, 100, 127, 128, 129, 192, 256, 300, 448, 500, 512, 576, 640, 704, 768,
@@ -348,8 +352,54 @@ def boundary_cases(rng, tier):
             yield Case(f"gcd_zn_gcd {m} {x}")
 
 
+# (xtop, ytop) pairs whose reduce64 matrix has the largest product of row sizes found by a directed search
+# (|b| ~ 2^34, |d| ~ 0.9 * 2^36, xtop ~ 2^63): a Lehmer step on x = xtop * 2^k + xl, y = ytop * 2^k + yl followed at
+# once by the <64-bit exit makes cofactor products of 40..57 * max(n, p) (the largest ratio seen anywhere)
+ADV_TOPS = [(9252754402567472798, 744673999053474881), (9273912679608153931, 3634834319764140802),
+            (9297038535131977817, 679360628938901656), (9286949640781810774, 1662010808351620318),
+            (9228938283933250428, 1428778142749257600), (9278449843213156201, 694746088240793395),
+            (9232921585157550786, 1254578532238157593), (9242132715442936519, 1202055992802453339)]
+WIDEBITS = {16: 1016, 8: 504, 4: 248}      # proved domain of no_panic_ext_wide / inv_mod_total: 64N - 8 bits
+
+
+def adversarial_pair(rng, tw):
+    """operands of tw bits: one quotient step down to a ~90-bit pair built on ADV_TOPS, one Lehmer step, <64-bit exit"""
+    xt, yt = rng.choice(ADV_TOPS)
+    K = 1 << rng.choice([26, 26, 25, 24])
+    lo = lambda: rng.choice([0, K - 1, rng.randrange(K), K - 1 - rng.getrandbits(10), rng.getrandbits(10)])
+    x, y = xt * K + lo(), yt * K + lo()
+    qb = tw - x.bit_length()
+    q = (1 << qb) - 1 - rng.getrandbits(qb - 8)
+    n = q * x + y
+    if n.bit_length() > tw:
+        n = (q >> 1) * x + y
+    return n, x
+
+
+def wide_cases(rng, tier):
+    """the band 64N-11 .. 64N-8 bits, added to the proved domain by no_panic_ext_wide: judged by the oracle in BOTH
+    profiles (a panic of the checked profile is a violation); shapes random / continuant / huge quotient / common
+    factor / adversarial (largest known cofactor products)"""
+    reps = 10 if tier == "quick" else 60
+    for N in (4, 8, 16):
+        top = WIDEBITS[N]
+        for i in range(reps):
+            for tw in range(top - 3, top + 1):
+                sh = ["adv", "random", "fib", "hugeq", "adv", "common"][(i + tw) % 6]
+                if sh == "adv":
+                    a, b = adversarial_pair(rng, tw)
+                else:
+                    a, b = make_pair(rng, sh, tw, tw if i % 2 else rng.choice([tw, tw - 1, 200, 90]), tw)
+                    if sh in ("random", "common"):
+                        a |= 1 << (tw - 1)
+                if (i + tw) % 3 == 0:
+                    a, b = b, a
+                yield from pair_cases(N, a, b, "wide-" + sh, full=False)
+
+
 def cases(tier, rng, extended=False):
     out = list(boundary_cases(_fork(rng, "C09-boundary"), tier))
+    out.extend(wide_cases(_fork(rng, "C09-wide"), tier))
     quick = tier == "quick"
     reps = 1 if quick else 6
     if extended:
@@ -399,7 +449,7 @@ def cases(tier, rng, extended=False):
         if sh != "hugeq":
             b |= 1 << (W0 - 1)
         out.extend(pair_cases(N, a, b, "boundary", full=False))
-        w1 = W0 + rng.randrange(1, 7)
+        w1 = W0 + rng.randrange(5, 7)       # 64N-7, 64N-6 bits: above the proved domain (64N-8)
         a, b = rbits(rng, w1), rbits(rng, rng.choice([w1, w1, rng.randrange(w1 - 40, w1 + 1)]))
         if i % 2:
             a, b = b, a
